@@ -113,6 +113,8 @@ pub struct MultiWriter {
     pub target_size: u64,
     pub current_key: Option<UserKey>,
     pub ghost rotations: int,
+    /// where the logical stream was cut into tables: positions in `writer.written`
+    pub ghost cuts: Seq<int>,
 }
 
 impl MultiWriter {
@@ -120,17 +122,22 @@ impl MultiWriter {
     fn rotate(&mut self) -> (r: Result<(), Error>)
         ensures final(self).rotations == old(self).rotations + 1, final(self).target_size == old(self).target_size,
             final(self).current_key == old(self).current_key, final(self).writer.written == old(self).writer.written,   // a fresh inner writer continues the same logical stream
+            final(self).cuts == old(self).cuts.push(old(self).writer.written.len() as int),   // ... cut after everything written so far
     { Ok(()) }
 
     // ---- verbatim from /repo/src/table/multi_writer.rs ----
-//@ FROM src/table/multi_writer.rs :: impl MultiWriter :: fn write :: OBL C07.2
+//@ FROM src/table/multi_writer.rs :: impl MultiWriter :: fn write :: OBL C07.2, C09.13
 //@ SUBST `crate :: Result < ( ) >` ==> `Result<(), Error>`
     fn write(&mut self, item: InternalValue) -> /*+*/(r:/*-*/ Result<(), Error>/*+*/)
         ensures
             // C07.2: a table is only ever cut in front of a strictly greater user key
             final(self).rotations > old(self).rotations ==> (old(self).current_key is None || old(self).current_key->0.rank() < item.key.user_key.rank()),
             final(self).rotations <= old(self).rotations + 1,
-            r is Ok ==> final(self).writer.written == old(self).writer.written.push(item),/*-*/
+            r is Ok ==> final(self).writer.written == old(self).writer.written.push(item),
+            // C09.13: a cut, if any, is placed in front of the item being written - the item is the first entry of the fresh table, so it
+            // lies in the table that is current when write returns (blob links registered after write go to the table holding the pointer)
+            r is Ok ==> final(self).cuts == old(self).cuts || final(self).cuts == old(self).cuts.push(old(self).writer.written.len() as int),   // @OBL C09.13
+        /*-*/
     {
         let is_next_key = self.current_key.as_ref() < Some(&item.key.user_key);
 
